@@ -17,6 +17,7 @@ FUNCTIONS = ["peltool.main (-f / -j branches)", "peltool.parseAndWriteOutput", "
 HARNESSES = [
     {"fn": "h_json_clean", "cases": ["good", "good/E", "good/H", "good/s", "trunc", "trunc/E", "junk", "two", "two/E", "good/E:leftover"],
      "quick_cases": ["good", "good/H", "trunc/E", "two/E", "good/E:leftover"], "timeout": {"quick": 90, "thorough": 300}},
+    {"fn": "h_long_name", "cases": ["255", "241"], "timeout": {"quick": 90, "thorough": 300}},
     {"fn": "h_file_clean", "cases": ["good", "good/E", "good/H", "good:hex/E", "trunc", "trunc/E", "junk"],
      "quick_cases": ["good", "good:hex/E", "trunc/E", "junk"], "timeout": {"quick": 90, "thorough": 300}},
 ]
@@ -147,7 +148,36 @@ def h_file_clean() -> bool:
             conds.append(_selected(sev, flags, o))
             conds.append(not any(x[0] == "fault" for x in ev))
             conds.append(any(x[0] == "stdout" and (hasattr(x[1], "obj") or hexmode) for x in before))
+            # 'emitted completely': standard output was flushed after the last thing printed
+            last_out = max(i for i, x in enumerate(before) if x[0] == "stdout")
+            conds.append(any(x[0] == "flush" for x in before[last_out:]))
     if kind == "good":
         want = sym_all([o["clean"], not any(x[0] == "fault" for x in ev), _selected(sev, flags, o)])
         conds.append(bool(want) == (len(removed) == 1))
     return verdict(sym_all(conds), obs={"events": [x[:2] if x[0] != "stdout" else ("stdout",) for x in ev], "status": status})
+
+
+def h_long_name() -> bool:
+    """
+    post: _
+    """
+    # an input whose name is as long as a file name can be: it is never opened for writing, and it is removed only
+    # after a distinct, complete output file was written
+    n = int(CASE)
+    name = "p" * n
+    clean = bool(sym_bool("clean"))
+    usedir = bool(sym_bool("output_dir"))
+    w = World(files=[(name, _pel(0x50000001, 0x40, 0xA800))], dirs=["/out"])
+    ns = Namespace(**dict(ARG_DEFAULTS, path="/pels", json=True, clean=clean, output_dir="/out" if usedir else None))
+    try:
+        status = run_main(peltool, w, ns)
+    except Exception as e:
+        return verdict(False, obs={"exception": repr(e)})
+    ev = w.events
+    inp = "/pels/" + name
+    opened = [e[1] for e in ev if e[0] == "open_w"]
+    conds = [status == 0, inp not in opened]
+    for idx, e in enumerate(ev):
+        if e[0] == "remove":
+            conds += [clean, e[1] == inp, any(x[0] == "close" and x[1] != inp for x in ev[:idx])]
+    return verdict(sym_all(conds), obs={"opened": [o[-30:] for o in opened], "events": [x[0] for x in ev]})
